@@ -197,11 +197,11 @@ class Renderer:
     def wrap(self, toks, shape):
         return ['('] + toks + [')'], ['paren', shape]
 
-    def sub(self, child, min_level, allow_paren=True, abs1=False):
+    def sub(self, child, min_level, allow_paren=True, abs1=False, operand=True):
         """render child for a position that requires at least EBNF level `min_level`"""
         toks, shape = self.r(child, abs1) if abs1 else self.r(child)
         lvl = self.lv[node_level(child, self.ver)]
-        if child[0] == 'rootonly' and min_level != self.low:
+        if child[0] == 'rootonly' and operand:
             lvl = -1                       # leading-lone-slash constraint: always parenthesise as an operand
         need = lvl < self.lv[min_level]
         if self.full and allow_paren and child[0] in COMPOUND:
@@ -224,7 +224,7 @@ class Renderer:
             if a[0] == 'placeholder':
                 t, s = ['?'], ['placeholder']
             else:
-                t, s = self.sub(a, self.arg)
+                t, s = self.sub(a, self.arg, operand=False)
             toks += t
             shapes.append(s)
         return toks, shapes
@@ -312,7 +312,7 @@ class Renderer:
             bt, bs = self.sub(base, 'step')
             if ver == '1.0' and base[0] in ('dot', 'parent') and bt[0] != '(':
                 bt, bs = self.wrap(bt, bs)      # 1.0: AbbreviatedStep takes no predicates
-            et, es = self.sub(n[2], self.low)
+            et, es = self.sub(n[2], self.low, operand=False)
             return bt + ['['] + et + [']'], ['pred', bs, es]
         if h == 'lookup':
             bt, bs = self.postfix_base(n[1])
@@ -331,12 +331,12 @@ class Renderer:
         if h == 'seq':
             toks, shapes = [], []
             for i, a in enumerate(n[1]):
-                t, s = self.sub(a, 'single')
+                t, s = self.sub(a, 'single', operand=False)
                 toks += ([','] if i else []) + t
                 shapes.append(s)
             return toks, ['seq', shapes]
         if h == 'if':
-            ct, cs = self.sub(n[1], 'expr')
+            ct, cs = self.sub(n[1], 'expr', operand=False)
             tt, ts = self.sub(n[2], 'single')
             et, es = self.sub(n[3], 'single')
             return ['if', '('] + ct + [')', 'then'] + tt + ['else'] + et, ['if', cs, ts, es]
@@ -352,7 +352,7 @@ class Renderer:
             toks = ['function', '(']
             for i, p in enumerate(n[1]):
                 toks += ([','] if i else []) + ['$', p]
-            bt, bs = self.sub(n[2], 'expr')
+            bt, bs = self.sub(n[2], 'expr', operand=False)
             return toks + [')', '{'] + bt + ['}'], ['inline', list(n[1]), bs]
         if h == 'map':
             toks, ents = ['map', '{'], []
@@ -365,14 +365,14 @@ class Renderer:
         if h == 'sqarr':
             toks, shapes = ['['], []
             for i, a in enumerate(n[1]):
-                t, s = self.sub(a, 'single')
+                t, s = self.sub(a, 'single', operand=False)
                 toks += ([','] if i else []) + t
                 shapes.append(s)
             return toks + [']'], ['sqarr', shapes]
         if h == 'curlarr':
             toks, shapes = ['array', '{'], []
             for i, a in enumerate(n[1]):
-                t, s = self.sub(a, 'single')
+                t, s = self.sub(a, 'single', operand=False)
                 toks += ([','] if i else []) + t
                 shapes.append(s)
             return toks + ['}'], ['curlarr', shapes]
@@ -470,11 +470,13 @@ WS_CHARS_SET = set(WS_CHARS)
 
 # comment bodies by class; every body is free of '(:' and ':)' unless it is the nested class
 COMMENT_BODIES = {
-    'plain': ['', ' ', 'c', ' a comment ', 'x y z', '1 + 2', '\n', ' \t'],
+    'plain': ['', ' ', 'c', ' a comment ', 'x y z', '1 + 2', ' \t', 'é'],
+    'newline': ['\n', ' line1\nline2 ', '\r\n'],
     'keyword': [' and ', 'div', ' to 3 ', 'return', ' instance of ', 'if (a) then'],
-    'punct': [' ) ', ' ( ', ' [ ', ']', ' , ', ' / ', '$', ' :: ', ' := ', '}', '{', ' ? ', '#', '=>', '||', '!', '@', ':'],
+    'punct': [' ) ', ' ( ', ' [ ', ']', ' , ', ' / ', '$', ' :: ', ' := ', '}', '{', ' ? ', '#', '=>', '||', '!', '@', ' : '],
+    'colon': [':', 'a:', ':a'],
     'quote': [" it's ", ' " ', " ' ", '"a', "'"],
-    'nested': ['(: inner :)', ' a (: b :) c ', '(::)', '(: (: deep :) :)', '(:\n:)'],
+    'nested': ['(: inner :)', ' a (: b :) c ', '(::)', '(: (: deep :) :)'],
 }
 COMMENT_CLASSES = tuple(COMMENT_BODIES)
 
@@ -487,7 +489,7 @@ def gap(draw, ver):
         return ['', 'none']
     if k < 75 or ver == '1.0':
         return [''.join(draw(st.lists(st.sampled_from(WS_CHARS), min_size=1, max_size=3))), 'ws']
-    cls = draw(st.sampled_from(COMMENT_CLASSES + ('plain', 'plain')))
+    cls = draw(st.sampled_from(COMMENT_CLASSES + ('plain', 'plain', 'plain', 'keyword', 'punct', 'nested')))
     body = draw(st.sampled_from(COMMENT_BODIES[cls]))
     pre = draw(st.sampled_from(['', '', ' ', '\n']))
     post = draw(st.sampled_from(['', '', ' ', '\t']))
@@ -1037,7 +1039,7 @@ def op_family(op, ver):
             'union': 'union', 'intersect': 'intersect', 'except': 'intersect', '||': 'concat', '!': 'map'}.get(op, op)
 
 
-def klass(n, ver='2.0'):
+def klass(n, ver='2.0', full=False):
     """coarse class of an AST / shape node for bucket names"""
     h = n[0]
     if h == 'bin':
@@ -1058,13 +1060,15 @@ def klass(n, ver='2.0'):
         return 'attr'
     if h == 'arrow':
         return f'arrow:{n[2][0]}'
+    if h in ('fref', 'inline', 'map', 'sqarr', 'curlarr', 'ulookup', 'lookup'):
+        return 'xp3-expr:' + h if full else 'xp3-expr'      # expression forms new in XPath 3.0 / 3.1
     return h
 
 
 def signature(n, ver='2.0', shape=None):
     """class of a node with the classes of its operands (operand classes taken from the rendered shape when given)"""
     src = shape if shape is not None else n
-    return klass(n, ver) + '(' + ','.join(klass(get_at(src, p), ver) for p in child_paths(n)) + ')'
+    return klass(n, ver, True) + '(' + ','.join(klass(get_at(src, p), ver) for p in child_paths(n)) + ')'
 
 
 # --------------------------------------------------------------------------
